@@ -148,6 +148,9 @@ def check(ctx, replay=None):
     # an earlier load of ANOTHER policy, with or without thread-sync: whether the recorded load reaches the other threads depends on its own flags only
     work += [{"n": n, "flags": fl, "seed": ctx.seed + n, "spawns": 2, "preload": True, "preload_other": True, "preload_flags": pf}
              for n in (2, 8) for fl in (0, 2, 1, 3) for pf in (1, 3, 0)]
+    # a policy of several groups that together exceed the kernel's 4096 instructions, the probe syscall denied by the last group: the
+    # kernel refuses the program (an error, nothing to validate); nil is only admissible with every thread under the WHOLE policy
+    work += [{"n": n, "flags": fl, "seed": ctx.seed * 19 + n, "spawns": 2, "oversize": True} for n in (1, 4, 16) for fl in (1, 3, 0)]
     results = lf.run_many(lambda c: (c, run_cfg(binary, c)), work, workers=6)
     rows = []
     nrec = 0
@@ -170,6 +173,12 @@ def check(ctx, replay=None):
                 ctx.violation("an unprivileged load without a requested no_new_privs bit returned nil: %s" % b, {"config": cfg, "recording": obs,
                               "admissible": "an error (the kernel refuses), or nil with the statement's coverage", "how": "./check C10 --replay <this file>"})
             ctx.cov["evaluations"] += sum(len(t["probes"]) for t in obs["threads"])
+            continue
+        if cfg.get("oversize"):
+            ctx.cov["evaluations"] += sum(len(t["probes"]) for t in obs["threads"])
+            for b in direct_judge(obs, cfg["flags"])[:2]:
+                ctx.violation("a load of a policy beyond the kernel's program size returned nil: %s" % b, {"config": cfg, "recording": obs,
+                              "admissible": "an error (the kernel refuses the program), or nil with the statement's coverage for the whole policy", "how": "./check C10 --replay <this file>"})
             continue
         if cfg.get("preload"):
             # the loader was filtered (by the same policy) before the recorded load: outside LoaderTrace's fresh-process segments; judged by the statement
